@@ -340,13 +340,37 @@ theorem fixOrigin_ok (from_ tramp : BitVec 64) (trampSize : Nat) (prog : List In
           simp only [Except.ok.injEq] at h
           exact ⟨by rw [← h]; omega, by omega, hn13, fun hh => absurd hh hlt, fun _ => h.symm⟩
 
-/-- the appended jump transfers control to exactly origin+n (C15.amd64_origin_rel on the regenerated emitter) whenever the
-    relative form is chosen, which is the case inside one text segment -/
-theorem jump_back_lands (from_ tramp : BitVec 64) (k n : Nat) (m : X86.Mach)
-    (hrel : Gen.Amd64.relative (tramp + BitVec.ofNat 64 k) (from_ + BitVec.ofNat 64 n) = true) :
+/-- **the appended jump transfers control to exactly origin+n and changes nothing else — in BOTH forms** (since fix 36abd0c the
+    far form is `JMP [RIP+0] ; .quad to`, register-free): `C15.return_exact` on the regenerated emitter.  No distance
+    hypothesis is left; the former relative-form hypothesis (defect F5) is gone. -/
+theorem jump_back_lands (from_ tramp : BitVec 64) (k n : Nat) (m : X86.Mach) :
     X86.exec (Gen.Amd64.jmpToOriginFunctionValue (tramp + BitVec.ofNat 64 k) (from_ + BitVec.ofNat 64 n))
       { m with rip := tramp + BitVec.ofNat 64 k } = some { m with rip := from_ + BitVec.ofNat 64 n } :=
-  C15.amd64_origin_rel _ _ m hrel
+  C15.return_exact _ _ m
+
+/-- the jump back costs 5 bytes (relative form) or 14 (far form): what `fixOrigin` compares with the placeholder size -/
+theorem jump_back_length (from_ tramp : BitVec 64) (k n : Nat) :
+    (Gen.Amd64.jmpToOriginFunctionValue (tramp + BitVec.ofNat 64 k) (from_ + BitVec.ofNat 64 n)).length =
+      if Gen.Amd64.relative (tramp + BitVec.ofNat 64 k) (from_ + BitVec.ofNat 64 n) then 5 else 14 :=
+  C15.amd64_origin_len _ _
+
+/-- **a successful `fixOrigin` of a partially moved function, executed from the end of the relocated instructions, lands on
+    origin+n** — whatever the distance between origin and placeholder — and occupies |fixed| + 5 or + 14 bytes ≤ placeholder size. -/
+theorem fixOrigin_returns_to_origin (from_ tramp : BitVec 64) (trampSize : Nat) (prog : List Ins) (hwf : ∀ i ∈ prog, WF i)
+    (data : Reloc.Bytes) (m : X86.Mach) (h : fixOrigin Cfg.fixed from_ tramp trampSize 13 prog = .ok data) :
+    ∃ fixed n, fixRelativeAddr Cfg.fixed from_ tramp (progLen prog) ((13 : Nat) : Int) .eof prog = .ok (fixed, n) ∧
+      (n < progLen prog →
+        X86.exec (data.drop fixed.length) { m with rip := tramp + BitVec.ofNat 64 fixed.length } =
+          some { m with rip := from_ + BitVec.ofNat 64 n } ∧
+        data.length = fixed.length +
+          (if Gen.Amd64.relative (tramp + BitVec.ofNat 64 fixed.length) (from_ + BitVec.ofNat 64 n) then 5 else 14) ∧
+        data.length ≤ trampSize) := by
+  obtain ⟨fixed, n, hfr, hsz, _, _, hj, _⟩ := fixOrigin_ok from_ tramp trampSize prog hwf data h
+  refine ⟨fixed, n, hfr, fun hlt => ?_⟩
+  have hd := hj hlt
+  refine ⟨?_, ?_, hsz⟩
+  · rw [hd, List.drop_left]; exact jump_back_lands from_ tramp fixed.length n m
+  · rw [hd, List.length_append, jump_back_length]
 
 /-! ## the relocation theorem -/
 
@@ -474,7 +498,7 @@ theorem no_reentry_partial (n : Nat) (fs : Int) (tl : Tail) (prog : List Ins) (h
 
 /-! ## round 5: jump back derived from the distance, condition preservation, inner targets -/
 
-/-- **the jump back is the 5-byte relative form and lands on origin+n** whenever origin and placeholder are less than
+/-- **the jump back is the 5-byte relative form** (and lands on origin+n, `jump_back_lands`) whenever origin and placeholder are less than
     2^31−2^21 apart and the copy is shorter than 2^20 bytes — derived, not assumed: connects `fixOrigin_ok` with the C15 theorem. -/
 theorem relative_of_near (from_ tramp : BitVec 64) (k n : Nat) (hk : k ≤ 2^20) (hn : n ≤ 2^18)
     (hd1 : -2^31 + 2^21 ≤ (from_.toNat : Int) - tramp.toNat) (hd2 : (from_.toNat : Int) - tramp.toNat < 2^31 - 2^21) :
@@ -489,7 +513,7 @@ theorem jump_back_lands_near (from_ tramp : BitVec 64) (k n : Nat) (m : X86.Mach
     (hd1 : -2^31 + 2^21 ≤ (from_.toNat : Int) - tramp.toNat) (hd2 : (from_.toNat : Int) - tramp.toNat < 2^31 - 2^21) :
     X86.exec (Gen.Amd64.jmpToOriginFunctionValue (tramp + BitVec.ofNat 64 k) (from_ + BitVec.ofNat 64 n))
       { m with rip := tramp + BitVec.ofNat 64 k } = some { m with rip := from_ + BitVec.ofNat 64 n } :=
-  jump_back_lands from_ tramp k n m (relative_of_near from_ tramp k n hk hn hd1 hd2)
+  jump_back_lands from_ tramp k n m
 
 example : Gen.Amd64.relative (0x600000#64 + BitVec.ofNat 64 19) (0x500000#64 + BitVec.ofNat 64 15) = true := by decide
 
